@@ -1,0 +1,35 @@
+//go:build verif
+
+package mozilla
+
+// Machine-checked contracts for the verification machinery in /verif (govc).
+// This file contains comments only and is compiled only with -tags verif.
+
+// RSA key quality (C16)
+
+//@ func (*modulus2048OrMore).Execute [C16]
+//@   requires c != nil && implies(typeIs(c.PublicKey, *rsa.PublicKey), util.hasRSAKey(c))
+//@   nopanic
+//@   assigns \fresh
+//@   ensures result != nil && fresh(result)
+//@   ensures implies(!typeIs(c.PublicKey, *rsa.PublicKey), result.Status == lint.Fatal)
+//@   ensures implies(typeIs(c.PublicKey, *rsa.PublicKey), (result.Status == lint.Error || result.Status == lint.Pass) &&
+//@                   (result.Status == lint.Error) == (bitlen(util.modulus(c)) < 2048))
+
+//@ func (*modulusDivisibleBy8).Execute [C16]
+//@   requires c != nil && implies(typeIs(c.PublicKey, *rsa.PublicKey), util.hasRSAKey(c))
+//@   nopanic
+//@   assigns \fresh
+//@   ensures result != nil && fresh(result)
+//@   ensures implies(!typeIs(c.PublicKey, *rsa.PublicKey), result.Status == lint.Fatal)
+//@   ensures implies(typeIs(c.PublicKey, *rsa.PublicKey), (result.Status == lint.Error || result.Status == lint.Pass) &&
+//@                   (result.Status == lint.Error) == (bitlen(util.modulus(c)) % 8 != 0))
+
+//@ func (*exponentCannotBeOne).Execute [C16]
+//@   requires c != nil && implies(typeIs(c.PublicKey, *rsa.PublicKey), util.hasRSAKey(c))
+//@   nopanic
+//@   assigns \fresh
+//@   ensures result != nil && fresh(result)
+//@   ensures implies(!typeIs(c.PublicKey, *rsa.PublicKey), result.Status == lint.Fatal)
+//@   ensures implies(typeIs(c.PublicKey, *rsa.PublicKey), (result.Status == lint.Error || result.Status == lint.Pass) &&
+//@                   (result.Status == lint.Error) == (util.exponent(c) == 1))
